@@ -468,6 +468,34 @@ func execManifest(ops []string, st *Stats) ([]string, []string) {
 					}
 				}
 				return r.String()
+			case w[0] == "leftover" && len(w) == 1:
+				// plant the MANIFEST-REWRITE a rewrite of the CURRENT table set would have written
+				// before crashing ahead of its rename (header + one set of creates, padded a little)
+				m := s.vmf.Manifest()
+				ids := make([]uint64, 0, len(m.Tables))
+				for id := range m.Tables {
+					ids = append(ids, id)
+				}
+				sort.Slice(ids, func(a, b int) bool { return ids[a] < ids[b] })
+				var cs []*pb.ManifestChange
+				for _, id := range ids {
+					tm := m.Tables[id]
+					cs = append(cs, badger.VerifNewCreateChange(id, int(tm.Level), tm.KeyID, uint32(tm.Compression)))
+				}
+				payload, err := proto.Marshal(&pb.ManifestChangeSet{Changes: cs})
+				if err != nil {
+					return "err:marshal"
+				}
+				img := []byte{'B', 'd', 'g', 'r', byte(s.ext >> 8), byte(s.ext), 0, 8}
+				var lc [8]byte
+				binary.BigEndian.PutUint32(lc[0:4], uint32(len(payload)))
+				binary.BigEndian.PutUint32(lc[4:8], crc32.Checksum(payload, castagnoli))
+				img = append(append(img, lc[:]...), payload...)
+				if err := os.WriteFile(filepath.Join(s.dir, "MANIFEST-REWRITE"), img, 0o644); err != nil {
+					panic(err)
+				}
+				st.Inc("leftover:tables=" + sizeBucket(len(ids)))
+				return "ok"
 			case w[0] == "file" && len(w) == 1:
 				return hx(s.canonicalFile())
 			case w[0] == "replay" && len(w) == 1:
@@ -858,6 +886,7 @@ func genManifestSession(rng *rand.Rand, st *Stats) []string {
 	nAdds := 4 + rng.Intn(24)
 	deleteHeavy := rng.Intn(2) == 0
 	tornSession := false
+	planted := false
 	for a := 0; a < nAdds; a++ {
 		var cs []string
 		sz := rng.Intn(6)
@@ -916,6 +945,12 @@ func genManifestSession(rng *rand.Rand, st *Stats) []string {
 			ops = append(ops, "add "+strings.Join(cs, ","))
 		}
 		st.Inc("setsize:" + strconv.Itoa(len(cs)))
+		if !planted && len(liveList) >= 3 && rng.Intn(3) == 0 {
+			// a crashed rewrite's MANIFEST-REWRITE for the current (large) table set; a later
+			// automatic rewrite with fewer tables must not inherit its tail
+			ops = append(ops, "leftover")
+			planted = true
+		}
 		if malformed {
 			// first as a frame appended to a copy of the file (replay must fail as a whole), then
 			// through addChanges: the in-memory manifest may then be partially modified and
@@ -974,6 +1009,9 @@ func genManifestSession(rng *rand.Rand, st *Stats) []string {
 				tornSession = true
 			}
 		}
+	}
+	if planted {
+		ops = append(ops, "reopen")
 	}
 	if tornSession {
 		// close and reopen once more: everything appended after the recovery must replay
